@@ -26,7 +26,11 @@ observed results for conversions) and requires, of every conversion the property
   F  no conversion changes an object that existed before it (its argument, its base, anything else);
   B  a whole-track conversion to ENU records the base it used: Track.base holds the geographic position of the base at the
      time of the call, and still does after the caller updates his base object (checked through the next conversion that
-     relies on the recorded base).
+     relies on the recorded base). When the call leaves the choice of the base to the library (toENUCoords() without
+     argument, toENUCoordsIfNeeded()) the property does not say which point that is: the oracle takes the base on record
+     after the call (a GeoCoords of the property's domain) as the base used and applies V and R with it — the new local
+     coordinates must be those about the recorded base, and the return through the record must give the positions back;
+     what toENUCoordsIfNeeded() returns must denote the recorded base.
 Refused calls (wrong class / number of arguments / SRID) are outside the property: the oracle stops there (their error
 kind is compared with the model's)."""
 import math
@@ -661,7 +665,9 @@ class Oracle:
                 kinds = {self.vals[p][0] for p in t["pts"]}
                 if len(kinds) != 1:
                     return None
-                if kinds == {"G"}:
+                if kinds == {"G"} or (kinds == {"E"} and st is not None and (st["new"] or st["trk"][0] != t["pts"])):
+                    # (the code converts a geographic track only; a track of ECEF positions is left alone. Whether such a
+                    # track "needs" the conversion is not fixed by the property: if it was converted, it is judged the same way)
                     # the library picks the base (a copy of the first position, today): judged against the base on record
                     r = self.track_conv(j, op, st, out, default=True)
                     if r is not None:
